@@ -16,6 +16,7 @@ PROG_CLASSES = [
     ("empty", 200, 8000),
     ("boolnest", 200, 8000),
     ("dead", 200, 8000),
+    ("forms", 300, 12000),
 ]
 
 
